@@ -133,9 +133,13 @@ Proof. intro c. destruct c; reflexivity. Qed.
 Lemma data_orders_checks_first_l : forall c, is_init c = false -> checks_first (dcall_order c) = true.
 Proof. intros c H. destruct c; try discriminate; reflexivity. Qed.
 
+(* vnadata_init = vnadata_resize(vdp, VPT_UNDEF, 0, 0, 0); vnadata_set_all_z0(vdp, default); then the body of
+   vnadata_resize.  The second statement is a plain write as long as its result is ignored, and a write that can
+   fail (EvF) once vnadata_init passes a failure of the z0 reset on (fix DE80): both readings are accepted. *)
 Lemma data_init_order_l :
-  gen_order_vnadata_init = EvW :: EvW :: gen_order_vnadata_resize /\ checks_first gen_order_vnadata_init = false.
-Proof. split; reflexivity. Qed.
+  (exists w2, is_write w2 = true /\ gen_order_vnadata_init = EvW :: w2 :: gen_order_vnadata_resize) /\
+  checks_first gen_order_vnadata_init = false.
+Proof. split; [|reflexivity]. eexists. split. 2: reflexivity. reflexivity. Qed.
 
 Section DataStepProofs.
   Variable payload : Type.
